@@ -135,15 +135,29 @@ def c05_2(ctx):
         ctx.bad("no-emission-site", SOME + ":1", "no DER signature emission found in the solver")
         return
     # one signature per key: a key whose signature was found in the existing script is skipped on EVERY way to an emission (signed
-    # by the lookup or taken from the hints alike); a second signature for the same key counts towards m and pushes another key's out
-    solved = sorted(a for a in sym.all_atoms(w) if a.endswith(" in secs_solved") or " in _find_signatures(" in a)
-    if not solved:
-        ctx.undecided("one-signature-per-key", ctx.where(f), "signing_solver: no test of the key against the keys that already have a signature found")
-    else:
-        for e in encs:
-            okk = any(sym.entails(e.reach, ("not", ("op", a))) for a in solved)
-            ctx.check(okk, "one-signature-per-key", ctx.where(f, e.node), "signing_solver emits a signature on a path that has not excluded `%s`: a key that already has a signature in the existing script is signed again" % solved[0][:70],
-                      sample={"skip_test": solved[0][:70]})
+    # by the lookup or taken from the hints alike) -- the skip is a statement of the per-key loop's own body that comes before the
+    # statement that emits; inside one branch only, the other branch signs the key a second time
+    fnode = sym.expanded(ctx, f)
+    solved_names = set()
+    for st in ast.walk(fnode):
+        if isinstance(st, ast.Assign) and len(st.targets) == 1 and isinstance(st.targets[0], ast.Tuple) and len(st.targets[0].elts) == 2 and isinstance(st.targets[0].elts[1], ast.Name) \
+                and ((isinstance(st.value, ast.Call) and "_find_signatures" in norm(st.value.func)) or isinstance(st.value, ast.Tuple)):
+            solved_names.add(st.targets[0].elts[1].id)
+    is_skip = lambda n: isinstance(n, ast.If) and any(isinstance(c, ast.Compare) and any(isinstance(o, ast.In) for o in c.ops) and any(isinstance(x, ast.Name) and x.id in solved_names for x in ast.walk(c)) for c in ast.walk(n.test)) \
+        and any(isinstance(x, ast.Continue) for x in n.body)
+    loops_ = [l for l in ast.walk(fnode) if isinstance(l, ast.For) and any(isinstance(c, ast.Call) and norm(c.func).endswith("sigencode_der") for c in ast.walk(l))]
+    if not solved_names or not loops_:
+        ctx.undecided("one-signature-per-key", ctx.where(f), "signing_solver: the keys that already have a signature / the per-key loop were not found in a form this rule reads")
+    for l in loops_:
+        emit_pos = next(i for i, st in enumerate(l.body) if any(isinstance(c, ast.Call) and norm(c.func).endswith("sigencode_der") for c in ast.walk(st)))
+        top = [i for i, st in enumerate(l.body[:emit_pos + 1]) if is_skip(st)]
+        nested = [n for st in l.body for n in ast.walk(st) if n is not st and is_skip(n)] + [n for st in l.body if isinstance(st, ast.If) for n in st.orelse if is_skip(n)]
+        if top:
+            ctx.ok("one-signature-per-key", sample={"skip_before_emission": norm(l.body[top[0]].test)[:60]})
+        elif nested:
+            ctx.bad("one-signature-per-key", ctx.where(f, nested[0]), "signing_solver skips a key that already has a signature (`%s`) only inside one branch of the per-key loop: on the other way to the emission the key is signed again, and the duplicate counts towards m" % norm(nested[0].test)[:60])
+        else:
+            ctx.undecided("one-signature-per-key", ctx.where(f, l), "signing_solver: no `if key in <solved keys>: continue` found in the per-key loop")
     for e in encs:
         if len(e.call.args) != 2:
             raise Undecided("sigencode_der is not called with (r, s)")
